@@ -60,10 +60,44 @@ MsgDetail(kind, ev) == [privdiff |-> Differing(ev.privA, ev.privB, NoCounterpart
                         pubdiff |-> Differing(ev.pub, ev.pub2, IF kind = "CR" THEN {"Raw"} ELSE {}),
                         reparsediff |-> Differing(ev.q, ev.q2, {})]
 
+
+\* ---- edit the public view, then convert (u_public.go:391-431 getPrivatePtr; PubClientHelloMsg.Marshal).
+\* A view obtained from UnmarshalClientHello is changed in ONE member (a scalar, one list element, one field of a nested
+\* element, or the list shortened by one); whatever the library caches in the view, the private form it converts to
+\* carries exactly the values the view now has, and Marshal (Raw cleared) followed by a parse shows the edited member.
+PrivName == [Raw |-> "original", Vers |-> "vers", Random |-> "random", SessionId |-> "sessionId", CipherSuites |-> "cipherSuites",
+             CompressionMethods |-> "compressionMethods", NextProtoNeg |-> "nextProtoNeg", ServerName |-> "serverName",
+             OcspStapling |-> "ocspStapling", Scts |-> "scts", Ems |-> "extendedMasterSecret", SupportedCurves |-> "supportedCurves",
+             SupportedPoints |-> "supportedPoints", TicketSupported |-> "ticketSupported", SessionTicket |-> "sessionTicket",
+             SupportedSignatureAlgorithms |-> "supportedSignatureAlgorithms", SecureRenegotiation |-> "secureRenegotiation",
+             SecureRenegotiationSupported |-> "secureRenegotiationSupported", AlpnProtocols |-> "alpnProtocols",
+             SupportedSignatureAlgorithmsCert |-> "supportedSignatureAlgorithmsCert", SupportedVersions |-> "supportedVersions",
+             Cookie |-> "cookie", KeyShares |-> "keyShares", EarlyData |-> "earlyData", PskModes |-> "pskModes",
+             PskIdentities |-> "pskIdentities", PskBinders |-> "pskBinders", QuicTransportParameters |-> "quicTransportParameters"]
+\* the private shape of a public member value
+ToPrivVal(F, v) == CASE F = "KeyShares" -> [i \in DOMAIN v |-> [group |-> v[i].Group, data |-> v[i].Data]]
+                     [] F = "PskIdentities" -> [i \in DOMAIN v |-> [label |-> v[i].Label, obfuscatedTicketAge |-> v[i].ObfuscatedTicketAge]]
+                     [] OTHER -> v
+\* members clientHelloMsg.marshal / unmarshal do not encode at all (nextProtoNeg is a uTLS-only flag of the struct,
+\* handshake_messages.go:105; the NPN extension is written by the uTLS extension list, never by this codec): an edit of
+\* such a member cannot show in a re-parsed hello; it must still reach the private form
+NotOnTheWire == {"NextProtoNeg"}
+\* TLS_EMPTY_RENEGOTIATION_INFO_SCSV (0x00ff) in cipher_suites signals secure renegotiation by itself (RFC 5746 3.3; the
+\* parser sets the flag when it sees it): clearing the flag of a view whose suites carry the SCSV cannot show after a parse
+SCSVSpeaks(ev) == ev.member = "SecureRenegotiationSupported" /\ \E i \in DOMAIN ev.pub.CipherSuites : ev.pub.CipherSuites[i] = 255
+StaleFields(pub, priv) == {F \in DOMAIN PrivName : ~(F \in DOMAIN pub /\ PrivName[F] \in DOMAIN priv /\ ToPrivVal(F, pub[F]) = priv[PrivName[F]])}
+EditFails(ev) ==
+  IF ~ev.applied THEN {} ELSE
+     (IF DOMAIN ev.pub = DOMAIN PrivName THEN {} ELSE {"view-has-members-the-specification-does-not-know"})
+  \cup (IF ev.before[ev.member] # ev.pub[ev.member] THEN {} ELSE {"edit-had-no-effect"})
+  \cup (IF StaleFields(ev.pub, ev.priv) = {} THEN {} ELSE {"private-form-does-not-reflect-the-edited-view"})
+  \cup (IF ev.member \in NotOnTheWire \/ SCSVSpeaks(ev) \/ ev.q[ev.member] = ev.pub[ev.member] THEN {} ELSE {"marshal-does-not-reflect-the-edited-view"})
+
 Fails(ev) ==
   IF "err" \in DOMAIN ev /\ ev.err # "" THEN {"error"} ELSE
   CASE ev.ev = "CH" -> CHFails(ev)
     [] ev.ev \in {"SH", "CR"} -> MsgFails(ev.ev, ev)
+    [] ev.ev = "Edit" -> EditFails(ev)
     [] ev.ev = "List" -> IF ev.in = ev.out /\ Len(ev.in) = ev.n THEN {} ELSE {"list-conversion-lossy"}
     [] ev.ev = "Suite" -> IF ev.priv = ev.back THEN {} ELSE {"suite-view-lossy"}
     [] ev.ev = "Keys" -> IF ev.in = ev.out THEN {} ELSE {"key-view-lossy"}
@@ -72,6 +106,7 @@ Detail(ev) ==
   IF "err" \in DOMAIN ev /\ ev.err # "" THEN [err |-> ev.err] ELSE
   CASE ev.ev = "CH" -> CHDetail(ev)
     [] ev.ev \in {"SH", "CR"} -> MsgDetail(ev.ev, ev)
+    [] ev.ev = "Edit" -> [path |-> ev.path, stale |-> IF ev.applied THEN StaleFields(ev.pub, ev.priv) ELSE {}]
     [] ev.ev = "Suite" -> [privdiff |-> Differing(ev.priv, ev.back, {})]
     [] OTHER -> [none |-> TRUE]
 =============================================================================
